@@ -23,12 +23,12 @@ def step (line : String) : String :=
     match Wire.unesc s with
     | some s => Wire.showVal (convertType s)
     | none => "bad-op"
-  | ["mass", a, res, mu, adj, aac, mr, ion, chg, em, flg] =>
-    match parseEnv? res mu adj aac mr ion chg em flg with
+  | ["mass", a, res, mu, adj, aac, mr, ion, chg, em, flg, ntc, ctc] =>
+    match parseEnv? res mu adj aac mr ion chg em flg ntc ctc with
     | some E => withAnn a fun a => showExcept showRat (massOf E a)
     | none => "bad-op"
-  | ["comp_mass", a, res, mu, adj, aac, mr, ion, chg, em, flg] =>
-    match parseEnv? res mu adj aac mr ion chg em flg with
+  | ["comp_mass", a, res, mu, adj, aac, mr, ion, chg, em, flg, ntc, ctc] =>
+    match parseEnv? res mu adj aac mr ion chg em flg ntc ctc with
     | some E => withAnn a fun a => showExcept (fun p => showComp p.1 ++ "|" ++ showRat p.2) (compMassOf E a)
     | none => "bad-op"
   | _ => "bad-op"
